@@ -388,7 +388,7 @@ func coordinate(prop, tier string) int {
 	return report(pd, tier, agg, len(items), time.Since(start))
 }
 
-// budgetFor: the thorough tier runs under a wall-clock budget (default 40 min, VERIF_THOROUGH_BUDGET_MIN overrides,
+// budgetFor: the thorough tier runs under a wall-clock budget (default 15 min, VERIF_THOROUGH_BUDGET_MIN overrides,
 // 0 = none); the quick tier is bounded by the per-scenario caps alone.
 func budgetFor(tier string) time.Duration {
 	if *flagBudgetMin >= 0 {
@@ -400,7 +400,7 @@ func budgetFor(tier string) time.Duration {
 	if v, err := strconv.Atoi(os.Getenv("VERIF_THOROUGH_BUDGET_MIN")); err == nil && v >= 0 {
 		return time.Duration(v) * time.Minute
 	}
-	return 40 * time.Minute
+	return 15 * time.Minute
 }
 
 // runBatch runs the items on n worker processes and stores each result under the item's id.
